@@ -50,6 +50,14 @@ KERNELS = [
          ret="A2 m m Bool", pick=1, pids=["C08", "C03"]),
     dict(name="electre1_kernel", file="skcriteria/agg/electre.py", fn="electre1", params={"matrix": M, "objectives": V, "weights": V, "p": S, "q": S},
          ret="A1 m Bool", pick=0, pids=["C08", "C03"]),
+    dict(name="weights_outrank", file="skcriteria/agg/electre.py", fn="weights_outrank", params={"matrix": M, "weights": V, "objectives": V},
+         ret="A2 m m Bool", pick=None, pids=["C08"]),
+    dict(name="electre2_wor", file="skcriteria/agg/electre.py", fn="electre2",
+         params={"matrix": M, "objectives": V, "weights": V, "p0": S, "p1": S, "p2": S, "q0": S, "q1": S}, ret="A2 m m Bool", pick=5, pids=["C08"]),
+    dict(name="electre2_strong", file="skcriteria/agg/electre.py", fn="electre2",
+         params={"matrix": M, "objectives": V, "weights": V, "p0": S, "p1": S, "p2": S, "q0": S, "q1": S}, ret="A2 m m Bool", pick=6, pids=["C08"]),
+    dict(name="electre2_weak", file="skcriteria/agg/electre.py", fn="electre2",
+         params={"matrix": M, "objectives": V, "weights": V, "p0": S, "p1": S, "p2": S, "q0": S, "q1": S}, ret="A2 m m Bool", pick=7, pids=["C08"]),
     dict(name="cenit", file="skcriteria/preprocessing/scalers.py", fn="matrix_scale_by_cenit_distance", params={"matrix": M, "objectives": V},
          ret=M, pick=None, pids=["C11", "C12"]),
     dict(name="scale_by_sum_M", file="skcriteria/preprocessing/scalers.py", fn="scale_by_sum", params={"arr": M}, bind={"axis": 0}, ret=M, pick=None,
@@ -105,6 +113,8 @@ class Tr:
         self.depth = 0
         self.empty = set()
         self.colsel = set()
+        self.combs = {}
+        self.falsebuf = {}
 
     # ---- helpers
     def _dotted(self, node):
@@ -350,7 +360,10 @@ class Tr:
         finally:
             self.depth -= 1
             self.env, self.bind, self.empty = saved
-        lets = "".join(f"let {_q(p)} := {b}; " for p, b in zip(params, bound))
+        # parameters are bound simultaneously (through temporaries): `f(matrix, objectives, weights)` may hand its arguments to
+        # parameters of the same names in another order
+        tmp = [f"«arg{self.depth}_{i}»" for i in range(len(params))]
+        lets = "".join(f"let {t} := {b}; " for t, b in zip(tmp, bound)) + "".join(f"let {_q(p)} := {t}; " for p, t in zip(params, tmp))
         return "(" + lets + "".join(l.strip() + "; " for l in lines) + result + ")"
 
     def block(self, stmts, pick):
@@ -364,6 +377,19 @@ class Tr:
             if isinstance(s, ast.Assign) and len(s.targets) == 1 and isinstance(s.targets[0], ast.Name):
                 nm = s.targets[0].id
                 v = s.value
+                if isinstance(v, ast.Call) and self._dotted(v.func) in ("it.combinations", "itertools.combinations", "combinations") \
+                        and len(v.args) == 2 and isinstance(v.args[1], ast.Constant) and v.args[1].value == 2 \
+                        and isinstance(v.args[0], ast.Call) and isinstance(v.args[0].func, ast.Name) and v.args[0].func.id == "range" \
+                        and len(v.args[0].args) == 1:
+                    self.combs[nm] = self.e(v.args[0].args[0])  # all index pairs i < j below a length
+                    self.env.discard(nm)
+                    continue
+                if isinstance(v, ast.Call) and self._dotted(v.func) in ("np.full", "numpy.full") and len(v.args) == 2 \
+                        and isinstance(v.args[0], ast.Tuple) and len(v.args[0].elts) == 2 and isinstance(v.args[1], ast.Constant) \
+                        and v.args[1].value is False:
+                    self.falsebuf[nm] = [self.e(x) for x in v.args[0].elts]  # a square boolean buffer initialised to False
+                    self.env.discard(nm)
+                    continue
                 if isinstance(v, ast.Call) and self._dotted(v.func) in ("np.empty", "numpy.empty"):
                     self.empty.add(nm)  # a buffer: it must be filled row by row before it is used
                     self.env.discard(nm)
@@ -386,6 +412,17 @@ class Tr:
                         raise Untranslated("statement inside np.errstate")
                     self.env.add(b.targets[0].id)
                     lines.append(f"  let {_q(b.targets[0].id)} := {self.e(b.value)}")
+            elif isinstance(s, ast.Assign) and len(s.targets) == 1 and isinstance(s.targets[0], ast.Tuple) and isinstance(s.value, ast.Tuple) \
+                    and len(s.targets[0].elts) == len(s.value.elts) and all(isinstance(t, ast.Name) for t in s.targets[0].elts):
+                rhs = [self.e(v) for v in s.value.elts]  # all right-hand sides first
+                tmps = [f"«tup{len(lines)}_{i}»" for i in range(len(rhs))]
+                for t, r in zip(tmps, rhs):
+                    lines.append(f"  let {t} := {r}")
+                for t, nm in zip(tmps, s.targets[0].elts):
+                    self.env.add(nm.id)
+                    lines.append(f"  let {_q(nm.id)} := {t}")
+            elif isinstance(s, ast.For) and isinstance(s.iter, ast.Name) and s.iter.id in self.combs:
+                lines.append(self.pairs_loop(s))
             elif isinstance(s, ast.For):
                 lines.append(self.rows_loop(s))
             elif isinstance(s, ast.If) and s.orelse and self._branch_target(s.body) and self._branch_target(s.body) == self._branch_target(s.orelse):
@@ -452,6 +489,52 @@ class Tr:
             return "(" + "".join(parts) + self.e(stmts[-1].value) + ")"
         finally:
             self.env, self.colsel = saved
+
+    def pairs_loop(self, s):
+        """`for i, j in combinations(range(len(X)), 2): a, b = X[[i, j]]; …; out[i, j] = e1; out[j, i] = e2` over a buffer
+        `out = np.full((k, k), False)`"""
+        if s.orelse or not (isinstance(s.target, ast.Tuple) and len(s.target.elts) == 2 and all(isinstance(t, ast.Name) for t in s.target.elts)):
+            raise Untranslated("pair loop form")
+        i, j = s.target.elts[0].id, s.target.elts[1].id
+        length = self.combs[s.iter.id]
+        body = list(s.body)
+        b0 = body[0] if body else None
+        if not (isinstance(b0, ast.Assign) and isinstance(b0.targets[0], ast.Tuple) and len(b0.targets[0].elts) == 2
+                and isinstance(b0.value, ast.Subscript) and isinstance(b0.value.slice, ast.List) and len(b0.value.slice.elts) == 2
+                and [getattr(x, "id", None) for x in b0.value.slice.elts] == [i, j]):
+            raise Untranslated("pair loop: the two rows are not taken as X[[i, j]]")
+        src = self.e(b0.value.value)
+        ra, rb = b0.targets[0].elts[0].id, b0.targets[0].elts[1].id
+        saved = set(self.env)
+        self.env |= {ra, rb}
+        sub = Tr(self.k, self.fn)
+        sub.env, sub.bind, sub.helpers, sub.depth = self.env, self.bind, self.helpers, self.depth
+        inner, stores = [], {}
+        for b in body[1:]:
+            if isinstance(b, ast.Assign) and len(b.targets) == 1 and isinstance(b.targets[0], ast.Subscript) \
+                    and isinstance(b.targets[0].value, ast.Name) and isinstance(b.targets[0].slice, ast.Tuple):
+                idx = [getattr(x, "id", None) for x in b.targets[0].slice.elts]
+                out = b.targets[0].value.id
+                if idx == [i, j]:
+                    stores["ij"] = (out, self.e(b.value))
+                elif idx == [j, i]:
+                    stores["ji"] = (out, self.e(b.value))
+                else:
+                    raise Untranslated("pair loop: store index")
+            else:
+                if stores:
+                    raise Untranslated("pair loop: statement after a store")
+                ls, _ = sub.block([b, ast.Return(value=ast.Constant(value=0))], pick=None)
+                inner += [l.strip() + "; " for l in ls]
+        self.env = saved
+        if set(stores) != {"ij", "ji"} or stores["ij"][0] != stores["ji"][0] or stores["ij"][0] not in self.falsebuf:
+            raise Untranslated("pair loop: both orientations must be stored into one np.full(..., False) buffer")
+        out = stores["ij"][0]
+        dims = self.falsebuf.pop(out)
+        self.env.add(out)
+        pre = "".join(inner)
+        return (f"  let {_q(out)} := (Np.pair_fill {src} {length} {dims[0]} {dims[1]} "
+                f"(fun {_q(ra)} {_q(rb)} => ({pre}{stores['ij'][1]})) (fun {_q(ra)} {_q(rb)} => ({pre}{stores['ji'][1]})))")
 
     def rows_loop(self, s):
         """`for idx, row in enumerate(X): …; out[idx] = expr` with `out = np.empty(...)`: one output row per row of X"""
